@@ -15,8 +15,10 @@
 #define MAXN 14
 #define MAXU 40
 
-enum { P_AGG, P_CHUNK, P_SYNC, P_CHECK, P_ALIGN };
-static const char *pnames[] = {"agg", "chunk", "ts_sync", "ts_check", "ts_align"};
+enum { P_AGG, P_CHUNK, P_SYNC, P_CHECK, P_ALIGN, P_CHECKAGG, NPIPES };
+static const char *pnames[] = {"agg", "chunk", "ts_sync", "ts_check", "ts_align", "ts_check>agg"};
+/* variant: the whole stream as ONE buffer whose segments are the chunks of the cutting */
+#define V_SEGMENTS 1000
 
 struct cfg {
     int pipe;
@@ -34,7 +36,8 @@ struct casei {
     int n;                 /* stream length */
     uint8_t s[MAXN];
     unsigned cut;          /* bit i set: cut after octet i (i < n-1) */
-    int variant;           /* 0 plain, 1 chunks of >= 2 octets as two segments, 2..: empty buffer inserted before chunk (variant-2) */
+    int variant;           /* 0 plain, 1 chunks of >= 2 octets as two segments, 2..: empty buffer inserted before chunk (variant-2),
+                            * V_SEGMENTS: one buffer, the chunks are its segments */
     int disc;              /* -1 none, else: chunk index carrying the discontinuity attribute (ts_sync) */
 };
 
@@ -63,7 +66,7 @@ static bool case_parse(const char *str, struct casei *c)
         hex[0] = 0;
     }
     c->c.pipe = -1;
-    for (int i = 0; i < 5; i++)
+    for (int i = 0; i < NPIPES; i++)
         if (!strcmp(pn, pnames[i]))
             c->c.pipe = i;
     c->n = (int)strlen(hex) / 2;
@@ -105,9 +108,23 @@ static struct upipe *mk_pipe(struct px_fix *fx, const struct cfg *c)
     case P_SYNC: mgr = upipe_ts_sync_mgr_alloc(); break;
     case P_CHECK: mgr = upipe_ts_check_mgr_alloc(); break;
     case P_ALIGN: mgr = upipe_ts_align_mgr_alloc(); break;
+    case P_CHECKAGG: mgr = upipe_ts_check_mgr_alloc(); break;
     }
     struct upipe *p = upipe_void_alloc(mgr, px_probe(fx));
     assert(p);
+    if (c->pipe == P_CHECKAGG) { /* ts_check (packets of a) -> aggregate (units of at most b) -> sink */
+        struct upipe *agg = upipe_void_alloc(upipe_agg_mgr_alloc(), px_probe(fx));
+        assert(agg);
+        ubase_assert(upipe_set_output_size(agg, c->b));
+        ubase_assert(upipe_set_output(agg, &fx->sinks[0].upipe));
+        ubase_assert(upipe_set_output_size(p, c->a));
+        struct uref *f = px_flow(fx, "block.", 1);
+        ubase_assert(upipe_set_flow_def(p, f));
+        uref_free(f);
+        ubase_assert(upipe_set_output(p, agg));
+        upipe_release(agg);
+        return p;
+    }
     /* options first (nothing is pending), then the definition, then the output */
     struct uref *f = px_flow(fx, "block.", 1);
     if (c->pipe == P_AGG) {
@@ -155,7 +172,29 @@ static bool run_case(const struct casei *c, struct units *out, char *acct, size_
                 start = i + 1;
             }
     }
-    for (int chunk = 0; chunk <= nchunks; chunk++) {
+    if (c->variant == V_SEGMENTS) {
+        struct uref *u = NULL;
+        for (int chunk = 0; chunk < nchunks; chunk++) {
+            struct ubuf *ub = ubuf_block_alloc(fx.ubuf_mgr, cl[chunk]);
+            assert(ub);
+            if (cl[chunk]) {
+                uint8_t *w;
+                int sz = -1;
+                ubase_assert(ubuf_block_write(ub, 0, &sz, &w));
+                memcpy(w, c->s + cs[chunk], cl[chunk]);
+                ubuf_block_unmap(ub, 0);
+            }
+            if (!u) {
+                u = uref_alloc(fx.uref_mgr);
+                assert(u);
+                uref_attach_ubuf(u, ub);
+            } else
+                ubase_assert(ubuf_block_append(u->ubuf, ub));
+        }
+        upipe_input(p, u, NULL);
+        nchunks = 0;
+    }
+    for (int chunk = 0; chunk <= nchunks && c->variant != V_SEGMENTS; chunk++) {
         if (c->variant >= 2 && c->variant - 2 == chunk) {
             struct uref *e = px_uref(&fx, 0, 0, 1, false);
             upipe_input(p, e, NULL);
@@ -325,7 +364,7 @@ static void check_case(const struct casei *c, const struct units *got, const str
     units_str(got, gs, sizeof(gs));
     int used = 0;
     /* (the aggregator concatenates whole accepted buffers: judged by the conservation rule below) */
-    if (c->c.pipe != P_AGG && !in_order_substrings(c, got, &used)) {
+    if (c->c.pipe != P_AGG && c->c.pipe != P_CHECKAGG && !in_order_substrings(c, got, &used)) {
         report(c, "not-input-bytes-in-order", "outputs %s are not non-overlapping in-order pieces of the input", gs);
         return;
     }
@@ -337,9 +376,10 @@ static void check_case(const struct casei *c, const struct units *got, const str
         /* accepted octets = buffers of size 1..mtu; every one exactly once; units <= mtu */
         uint8_t acc[MAXN];
         int na = 0, start = 0;
+        unsigned cut = c->variant == V_SEGMENTS ? 0 : c->cut; /* one buffer, whatever its segments */
         for (int i = 0; i < c->n; i++) {
             bool last = i == c->n - 1;
-            if (last || ((c->cut >> i) & 1)) {
+            if (last || ((cut >> i) & 1)) {
                 int len = i + 1 - start;
                 if (len >= 1 && len <= c->c.a) {
                     memcpy(acc + na, c->s + start, len);
@@ -399,6 +439,37 @@ static void check_case(const struct casei *c, const struct units *got, const str
             if (got->len[i] != c->c.a || got->b[i][0] != 0x47)
                 report(c, "not-a-packet", "output unit %d is %d octets starting with %02x (packet size %d)", i, got->len[i], got->b[i][0], c->c.a);
         break;
+    case P_CHECKAGG: {
+        /* what ts_check alone lets through for the same feeding, regrouped: sizes <= MTU, every octet once, in order */
+        struct casei alone = *c;
+        alone.c.pipe = P_CHECK;
+        alone.c.b = 0;
+        struct units pk;
+        char a2[300] = "", s2[96] = "";
+        run_case(&alone, &pk, a2, sizeof(a2), s2, sizeof(s2));
+        uint8_t want[MAXU * 16], cat[MAXU * 16];
+        int nw = 0, nc = 0;
+        for (int i = 0; i < pk.n; i++) {
+            memcpy(want + nw, pk.b[i], pk.len[i] > 16 ? 16 : pk.len[i]);
+            nw += pk.len[i];
+        }
+        for (int i = 0; i < got->n; i++) {
+            if (got->len[i] > c->c.b || got->len[i] < 1 || got->len[i] % c->c.a)
+                report(c, "unit-size", "output unit of %d octets with packets of %d and MTU %d (outputs %s)", got->len[i], c->c.a, c->c.b, gs);
+            memcpy(cat + nc, got->b[i], got->len[i] > 16 ? 16 : got->len[i]);
+            nc += got->len[i];
+        }
+        if (nc != nw || memcmp(cat, want, nw)) {
+            units_str(&pk, es, sizeof(es));
+            report(c, "conservation", "outputs %s carry %d octets, the packets ts_check lets through alone are %s (%d octets)", gs, nc, es, nw);
+        }
+        break;
+    }
+    }
+    /* one buffer: its segmentation is invisible */
+    if (uncut != NULL && c->variant == V_SEGMENTS && !units_equal(got, uncut)) {
+        units_str(uncut, es, sizeof(es));
+        report(c, "segmentation-dependent", "outputs %s for one buffer made of these segments differ from the outputs for the same buffer in one segment: %s", gs, es);
     }
     /* stream parsers: independent of the cutting */
     if (uncut != NULL && (c->c.pipe == P_CHUNK || c->c.pipe == P_SYNC || c->c.pipe == P_ALIGN) && c->disc < 0 && !units_equal(got, uncut)) {
@@ -451,6 +522,11 @@ static void do_stream(struct casei *base, bool variants)
             base->variant = v;
             do_case(base, &uncut, NULL);
         }
+        if (variants && cut != 0) {
+            base->variant = V_SEGMENTS;
+            do_case(base, &uncut, NULL);
+            base->variant = 0;
+        }
         if (base->c.pipe == P_SYNC && variants && n >= 2)
             for (int d = 1; d < nchunks; d++) { /* a discontinuity flushes what is pending */
                 base->variant = 0;
@@ -497,7 +573,7 @@ int main(int argc, char **argv)
     v_crash_open();
     g_t0 = v_now();
     int pi = -1;
-    for (int i = 0; i < 5; i++)
+    for (int i = 0; i < NPIPES; i++)
         if (!strcmp(pipe, pnames[i]))
             pi = i;
     if (pi < 0)
@@ -524,6 +600,10 @@ int main(int argc, char **argv)
         for (int p = 2; p <= 4; p++)
             for (int s = 2; s <= 3; s++)
                 cfgs[ncfg++] = (struct cfg){pi, p, s};
+    } else if (pi == P_CHECKAGG) {
+        for (int p = 2; p <= 3; p++)
+            for (int m = 2; m <= 3; m++)
+                cfgs[ncfg++] = (struct cfg){pi, p, m * p};
     } else
         for (int p = 2; p <= 4; p++)
             cfgs[ncfg++] = (struct cfg){pi, p, 0};
